@@ -48,7 +48,8 @@ def tricky_prefix(r):
         out.append([
             'assert',
             ['=', '|s v|',
-             r.choice(['"a""b"', '"a\\u{3bb}b c"', '"\\x41""q"', '"(;|)"'])]
+             r.choice(['"a""b"', '"a\\u{3bb}b c"', '"\\x41""q"', '"(;|)"',
+                       '"""b"', '"say ""hi"""', '""""', '"a"""'])]
         ])
         out.append(['assert', ['str.contains', '|s v|', '"a""b"']])
     if r.random() < 0.3:
